@@ -96,7 +96,7 @@ def add_entry(L, rng, workdirs, a, tag, used, kinds=None, spellings=None,
                                              'sub', 'mytrash', 'deep')):
                 break
     used.add((d, name))
-    kind = rng.choice(kinds or gen.ENTRY_KINDS)
+    kind = rng.choice(kinds or (gen.ENTRY_KINDS + ['tree_fifo']))
     rel = d + '/' + name
     target = None
     tgt_rel = None
@@ -120,7 +120,7 @@ def add_entry(L, rng, workdirs, a, tag, used, kinds=None, spellings=None,
         target = rng.choice(['nowhere-' + tag, '/nonexistent/' + tag,
                              '../gone/' + tag, name])
     L.add(gen.entry_nodes(rng, rel, kind, tag, target))
-    isdirlike = kind in ('tree', 'dir_empty', 'link_dir')
+    isdirlike = kind in ('tree', 'dir_empty', 'link_dir', 'tree_fifo')
     sp = rng.choice(spellings or SPELLINGS)
     if sp in ('trail1', 'trail2', 'abs_trail', 'trail3') and not isdirlike \
             and rng.random() < 0.7:
@@ -276,6 +276,31 @@ def add_stale(L, rng, args, index, p=0.3, extra_dirs=()):
                     L.add(nd)
 
 
+def add_partial_trash_dirs(L, rng, p=0.2, extra_dirs=()):
+    """half set-up trash directories (the dir alone, only info/, only files/):
+    the missing parts must be created on demand, the directory still used"""
+    if rng.random() >= p:
+        return
+    cands = list(extra_dirs)
+    ht = L.home_trash()
+    if ht:
+        cands.append(ht)
+    for v in L.mounts:
+        if L.alt_state.get(v) in ('absent', 'dir'):
+            cands.append(L.vol_path(v, '.Trash-%d' % L.uid))
+        if L.top_state.get(v) == 'sticky':
+            cands.append(L.vol_path(v, '.Trash/%d' % L.uid))
+    have = set(nd['p'] for nd in L.nodes)
+    for td in cands:
+        if td in have or any(h.startswith(td + '/') for h in have):
+            continue
+        if rng.random() < 0.5:
+            L.add({'p': td, 't': 'd', 'm': 0o700})
+            part = rng.choice(['', 'info', 'files'])
+            if part:
+                L.add({'p': td + '/' + part, 't': 'd', 'm': 0o700})
+
+
 def gen_case(rng, index, tier):
     L = gen.make_layout(rng)
     dotcase = rng.random() < 0.22
@@ -312,6 +337,7 @@ def gen_case(rng, index, tier):
                             nm.encode()), '2001-01-01T00:00:00'),
                         [{'p': '', 't': 'f', 'c': 'old payload %d' % index}]))
     add_stale(L, rng, args, index)
+    add_partial_trash_dirs(L, rng)
     case = L.desc()
     case['env'] = dict(case['env'], **env_extra)
     case['args'] = args
@@ -397,7 +423,19 @@ def judge(case, w, r, s0, s1, des, out):
             out['violations'].append({
                 'mechanism': mechanism(st, a, rep, r, o, case),
                 'detail': detail(case, w, r, o, A)})
-    if A.frame:
+    if A.frame and fallback_on(case) and not out['violations'] and \
+            all(o['state'] in ('UNTOUCHED', 'NOTHING', 'TRASHED') for o in A.outcomes) and \
+            sorted(set(f[0] for f in A.frame if not (
+                f[0] == 'added' and any(g[1].startswith(f[1] + '/') for g in A.frame)
+            ))) == ['orphan-payload'] and r.exit != 0 and \
+            any(e['op'] == 'rename' and e.get('r') in ('V', 'E') and e.get('e') == 18
+                for e in r.events):
+        # F12 (known under C17) reached without fault injection: the
+        # cross-device copy itself failed (e.g. a named pipe in the tree)
+        out['violations'].append({
+            'mechanism': 'fallback-copy-fault-leaves-orphan-payload',
+            'detail': detail(case, w, r, None, A)})
+    elif A.frame:
         kinds = sorted(set(f[0] for f in A.frame))
         # frame damage already explained by a bad per-argument outcome is
         # reported once, under that outcome
